@@ -6,6 +6,14 @@ import z3
 from . import sym as S
 
 
+def _zv(v):
+    from fractions import Fraction
+
+    if isinstance(v, Fraction):
+        return z3.RealVal(f"{v.numerator}/{v.denominator}")
+    return v
+
+
 class PathInfeasible(BaseException):
     pass
 
@@ -96,7 +104,7 @@ class Explorer:
             if isinstance(ent, tuple) and ent[0] == "val":
                 v = ent[1]
                 self.trace.append(ent)
-                c = e == v
+                c = e == _zv(v)
                 self.pc.append(c)
                 self.solver.add(c)
                 return v
@@ -106,7 +114,7 @@ class Explorer:
                 raise S.EngineFault("decision kind mismatch on re-execution")
         self.solver.push()
         for x in excluded:
-            self.solver.add(e != x)
+            self.solver.add(e != _zv(x))
         r = self.solver.check()
         if r == z3.unsat:
             self.solver.pop()
@@ -114,13 +122,21 @@ class Explorer:
         if r != z3.sat:
             self.solver.pop()
             raise S.Unsupported("value enumeration: solver returned unknown")
-        v = self.solver.model().eval(e, model_completion=True).as_long()
+        mv = self.solver.model().eval(e, model_completion=True)
+        if z3.is_int_value(mv):
+            v = mv.as_long()
+        elif z3.is_rational_value(mv):
+            from fractions import Fraction
+
+            v = S.norm(Fraction(mv.numerator_as_long(), mv.denominator_as_long()))
+        else:
+            raise S.Unsupported('value enumeration of a non-rational value')
         self.solver.pop()
         if len(excluded) > 4096:
             raise S.Unsupported("value enumeration exceeds 4096 alternatives")
         self.todo.append(self.trace + [("excl", tuple(excluded) + (v,))])
         self.trace.append(("val", v))
-        c = e == v
+        c = e == _zv(v)
         self.pc.append(c)
         self.solver.add(c)
         return v
